@@ -4,7 +4,7 @@ package main
 // lock-step: SQL text for the real binary and the prefix-token AST that lean/Octo/Drv/C02.lean parses.
 //
 //   jn <mode> <opt> <fmt> <kinds> DB <n> (T <ncols> <nrows> <v>…)×n Q <from> <whr> <proj> SQL <hex>
-//   from := t<i> | sub <from> <expr> | j (inner|lookup|left|right|full) <from> <from> <expr>
+//   from := t<i> | sub <from> <expr> | proj <k> <from> <expr>×k | j (inner|lookup|left|right|full) <from> <from> <expr>
 //
 // Column references are positional (`c<i>`): position in ctx ++ left ++ right, where ctx are the columns of the
 // left sides of enclosing LOOKUP JOINs. Table i is stored in the file <alias>.<fmt> with alias "tuv"[i] and
@@ -189,22 +189,53 @@ type joinGen struct {
 	g      *Gen
 	fmtExt string
 	tables []jtable
+	fileOf []int
 	subN   int
 }
 
 func (jg *joinGen) leaf(i int, ctx []jcol) jfrom {
+	g := jg.g
 	alias := joinAliases[i]
-	file := alias + "." + jg.fmtExt
-	if jg.g.Chance(1, 6) {
-		// (SELECT * FROM file x0 WHERE w) x ; positions in w are relative to ctx ++ columns of the file
-		jg.subN++
-		inner := fmt.Sprintf("%s%d", alias, jg.subN)
-		all := append(append([]jcol{}, ctx...), jg.tables[i].cols(inner, i)...)
-		w := genJPred(jg.g, all, len(ctx), len(all), 1)
-		return jfrom{tok: fmt.Sprintf("sub t%d %s", i, w.tok), sql: fmt.Sprintf("(SELECT * FROM %s %s WHERE %s) %s", file, inner, w.sql, alias),
-			cols: jg.tables[i].cols(alias, i)}
+	fi := jg.fileOf[i] // the file read under this alias (a self join reads the file of an earlier table again)
+	file := joinAliases[fi] + "." + jg.fmtExt
+	k := g.Intn(20)
+	if k < 12 {
+		return jfrom{tok: fmt.Sprintf("t%d", i), sql: file + " " + alias, cols: jg.tables[i].cols(alias, fi)}
 	}
-	return jfrom{tok: fmt.Sprintf("t%d", i), sql: file + " " + alias, cols: jg.tables[i].cols(alias, i)}
+	// a sub-select: (SELECT <* | e AS n, …> FROM file x [WHERE w]) alias ; positions are relative to ctx ++ columns of the file
+	jg.subN++
+	inner := fmt.Sprintf("%s%d", alias, jg.subN)
+	all := append(append([]jcol{}, ctx...), jg.tables[i].cols(inner, fi)...)
+	srcTok := fmt.Sprintf("t%d", i)
+	whereSQL := ""
+	if k < 15 || k >= 18 {
+		w := genJPred(g, all, len(ctx), len(all), 1)
+		srcTok = fmt.Sprintf("sub t%d %s", i, w.tok)
+		whereSQL = " WHERE " + w.sql
+	}
+	if k < 15 {
+		return jfrom{tok: srcTok, sql: fmt.Sprintf("(SELECT * FROM %s %s%s) %s", file, inner, whereSQL, alias), cols: jg.tables[i].cols(alias, fi)}
+	}
+	n := 1 + g.Intn(len(all)-len(ctx)+1)
+	var toks, sqls []string
+	var out []jcol
+	for j := 0; j < n; j++ {
+		a := len(ctx) + g.Intn(len(all)-len(ctx))
+		if j < len(all)-len(ctx) && g.Chance(2, 3) {
+			a = len(ctx) + j // mostly keep the columns in place so that the key kinds survive
+		}
+		e := colExpr(a, all[a])
+		if all[a].kind == 'i' && all[a].typed && g.Chance(1, 4) {
+			e = jexpr{tok: "+ " + e.tok + " v i1", sql: "(" + e.sql + " + 1)"}
+		}
+		name := fmt.Sprintf("%sp%d", alias, j)
+		toks = append(toks, e.tok)
+		sqls = append(sqls, e.sql+" AS "+name)
+		out = append(out, jcol{sql: alias + "." + name, kind: all[a].kind, typed: all[a].typed})
+	}
+	return jfrom{tok: fmt.Sprintf("proj %d %s %s", n, srcTok, strings.Join(toks, " ")),
+		sql:  fmt.Sprintf("(SELECT %s FROM %s %s%s) %s", strings.Join(sqls, ", "), file, inner, whereSQL, alias),
+		cols: out}
 }
 
 // onCond builds the ON condition of a join whose inputs occupy all[c:c+wl] and all[c+wl:]; all[:c] is the context
@@ -342,11 +373,18 @@ func genJoinOp(g *Gen, thorough bool) string {
 		if fileFmt == "json" {
 			minRows = 1 // an empty JSON file has no columns at all
 		}
-		if g.Chance(1, 10) {
+		switch {
+		case i > 0 && g.Chance(1, 10): // self join: the same file under another alias
+			fi := g.Intn(i)
+			jg.fileOf = append(jg.fileOf, jg.fileOf[fi])
+			jg.tables = append(jg.tables, jg.tables[fi])
+			continue
+		case g.Chance(1, 10):
 			jg.tables = append(jg.tables, genJTable(g, kinds, minRows, 1))
-		} else {
+		default:
 			jg.tables = append(jg.tables, genJTable(g, kinds, minRows, maxRows))
 		}
+		jg.fileOf = append(jg.fileOf, i)
 	}
 	leaf := func(i int) func([]jcol) jfrom { return func(ctx []jcol) jfrom { return jg.leaf(i, ctx) } }
 	var f jfrom
